@@ -1911,7 +1911,9 @@ pub fn frame_json(f: &Frame) -> Value {
             max_ack_delay,
             reordering,
         } => json!({"f":"ACK_FREQUENCY","seq":seq,"th":threshold,"mad":max_ack_delay,"ro":reordering}),
-        Frame::Datagram { len, .. } => json!({"f":"DATAGRAM","len":len}),
+        Frame::Datagram { len, did, hlen, intact, fsize, .. } => {
+            json!({"f":"DATAGRAM","len":len,"did":did,"hlen":hlen,"intact":intact,"fsize":fsize})
+        }
         Frame::Unknown(t) => json!({"f":"UNKNOWN","ty":t}),
     }
 }
